@@ -417,9 +417,26 @@ func DeleteQuery(qid uint64) {
 	arqMapLock.Lock()
 	defer arqMapLock.Unlock()
 
-	rQuery := allRunningQueries[qid]
+	rQuery, ok := allRunningQueries[qid]
+	if !ok {
+		// The query may still be waiting to run; don't let it run after it's deleted.
+		removeFromWaitingQueriesQueue(qid)
+		return
+	}
 
 	rQuery.withLockDeleteQuery()
+}
+
+func removeFromWaitingQueriesQueue(qid uint64) {
+	waitingQueriesLock.Lock()
+	defer waitingQueriesLock.Unlock()
+
+	for i, wsData := range waitingQueries {
+		if wsData.qid == qid {
+			waitingQueries = append(waitingQueries[:i], waitingQueries[i+1:]...)
+			return
+		}
+	}
 }
 
 func (rQuery *RunningQueryState) withLockDeleteQuery() {
